@@ -1,5 +1,5 @@
 (* C02 for operator expressions of any length: values, prefix, suffix and binary
-   operators, the implicit space list, round brackets nested to any depth, whitespace
+   operators, the implicit space list, round brackets and nested-expression brackets `{ }` nested to any depth, whitespace
    anywhere between tokens.  The loop of parse() and the spine machine run in lockstep
    over the token list. *)
 From Coq Require Import List Arith Bool NArith Lia.
@@ -23,22 +23,13 @@ Proof. destruct r; [discriminate|discriminate]. Qed.
 
 Lemma space_is_whitespace t : ref_kind t = KSpace -> t = TT_Whitespace.
 Proof. destruct t; intros H; try discriminate H; reflexivity. Qed.
-Lemma open_is_startgroup t : ref_kind t = KOpen -> t = TT_StartGroup.
-Proof. destruct t; intros H; try discriminate H; reflexivity. Qed.
-Lemma close_is_endgroup t : ref_kind t = KClose -> t = TT_EndGroup.
-Proof. destruct t; intros H; try discriminate H; reflexivity. Qed.
+Lemma open_is_open_tok t b : ref_kind t = KOpen b -> t = open_tok b.
+Proof. destruct t; intros H; try discriminate H; injection H as <-; reflexivity. Qed.
+Lemma close_is_close_tok t b : ref_kind t = KClose b -> t = close_tok b.
+Proof. destruct t; intros H; try discriminate H; injection H as <-; reflexivity. Qed.
 
 Lemma no_groups_iff fs : group_ids fs = [] -> existsb is_fgroup fs = false.
 Proof. induction fs as [|f r IH]; [reflexivity|]. destruct f; simpl; auto. discriminate. Qed.
-
-Lemma close_group_exists : forall fs t, group_ids fs <> [] -> exists fs' t', close_group fs t = Some (fs', t').
-Proof.
-  induction fs as [|f r IH]; intros t H; [exfalso; apply H; reflexivity|].
-  destruct f as [i d k l|i d k|i k]; cbn [close_group group_ids] in *.
-  - apply IH. exact H.
-  - apply IH. exact H.
-  - eexists _, _. reflexivity.
-Qed.
 
 Lemma value_norm tok : is_value_tok tok = true -> norm_atom (ref_def tok) = ref_def tok.
 Proof. intros Hv. destruct (value_tok_facts tok Hv) as (sec & _ & _ & _ & _ & _ & Hn & _). exact Hn. Qed.
@@ -47,7 +38,7 @@ Definition ms_frames (ms : spine_state) : list frame := fst ms.
 
 Lemma run_opexpr ntoks : forall toks i st after sp depth ms prev,
   opexpr_from toks after sp depth = true -> rel after sp st ms -> prev_ok after prev ->
-  length (group_ids (ms_frames ms)) = depth ->
+  group_kinds (ms_frames ms) = depth ->
   i + length toks = ntoks ->
   exists st' fs' t' its,
     run_steps ntoks i toks st = Ok st' /\ gcompl st' fs' t' false /\ group_ids fs' = [] /\
@@ -59,10 +50,10 @@ Proof.
   - (* end of the expression *)
     cbn [opexpr_from] in Hop. apply andb_true_iff in Hop. destruct Hop as [Hop Hd0].
     apply andb_true_iff in Hop. destruct Hop as [-> Hsp].
-    apply negb_true_iff in Hsp. subst sp. apply Nat.eqb_eq in Hd0. subst depth.
+    apply negb_true_iff in Hsp. subst sp. destruct depth; [|discriminate Hd0].
     destruct ms as [fs [t|]]; simpl in R; [|contradiction]. cbn [ms_frames fst] in Hdepth.
     exists st, fs, t, []. split; [reflexivity|]. split; [exact R|].
-    split; [destruct (group_ids fs); [reflexivity|discriminate Hdepth]|].
+    split; [apply group_kinds_nil; exact Hdepth|].
     split; [reflexivity|]. split; [reflexivity|constructor].
   - cbn [opexpr_from] in Hop. cbn [length] in Hi. cbn [run_steps items_of].
     destruct (ref_kind tok) eqn:Ek; try discriminate Hop.
@@ -75,7 +66,7 @@ Proof.
         destruct ms as [fs [t|]]; simpl in R; [|contradiction]. cbn [ms_frames fst] in Hdepth.
         destruct (gstep_value_list ntoks i tok st fs t R Hv) as (st1 & fs1 & t1 & Hpop & Hs & G1 & L1).
         destruct (IH (S i) st1 true false depth (_, Some _) (Some KValue) Hop G1 eq_refl
-                     ltac:(cbn [ms_frames fst group_ids]; rewrite (pop_group_ids _ _ _ _ _ Hpop); exact Hdepth) ltac:(lia))
+                     ltac:(cbn [ms_frames fst group_kinds]; rewrite (pop_group_kinds _ _ _ _ _ Hpop); exact Hdepth) ltac:(lia))
           as (st' & fs' & t' & its & Hr & G' & Hng & Hit & Hsr & Hrk).
         exists st', fs', t'. eexists. split; [rewrite Hs; cbn [bind]; exact Hr|]. split; [exact G'|]. split; [exact Hng|].
         destruct prev as [p|]; [|discriminate Hprev]. simpl in Hprev. rewrite Hprev. cbn [andb starts_value_k].
@@ -105,7 +96,7 @@ Proof.
       assert (Hi1 : i + 1 < ntoks) by (destruct r; [congruence|simpl in Hi; lia]).
       destruct (gstep_binary ntoks i tok st fs t sp R Hb Hi1) as (st1 & fs1 & t1 & Hpop & Hs & G1 & L1).
       destruct (IH (S i) st1 false false depth (_, None) (Some KBinary) Hop G1 eq_refl
-                   ltac:(cbn [ms_frames fst group_ids]; rewrite (pop_group_ids _ _ _ _ _ Hpop); exact Hdepth) ltac:(lia))
+                   ltac:(cbn [ms_frames fst group_kinds]; rewrite (pop_group_kinds _ _ _ _ _ Hpop); exact Hdepth) ltac:(lia))
         as (st' & fs' & t' & its & Hr & G' & Hng & Hit & Hsr & Hrk).
       exists st', fs', t'. eexists. split; [rewrite Hs; cbn [bind]; exact Hr|]. split; [exact G'|]. split; [exact Hng|].
       assert (Hlead : match prev with
@@ -127,7 +118,7 @@ Proof.
         destruct ms as [fs [t|]]; simpl in R; [|contradiction]. cbn [ms_frames fst] in Hdepth.
         destruct (gstep_prefix_list ntoks i tok st fs t R Hp) as (st1 & fs1 & t1 & Hpop & Hs & G1 & L1).
         destruct (IH (S i) st1 false false depth (_, None) (Some KPrefix) Hop G1 eq_refl
-                     ltac:(cbn [ms_frames fst group_ids]; rewrite (pop_group_ids _ _ _ _ _ Hpop); exact Hdepth) ltac:(lia))
+                     ltac:(cbn [ms_frames fst group_kinds]; rewrite (pop_group_kinds _ _ _ _ _ Hpop); exact Hdepth) ltac:(lia))
           as (st' & fs' & t' & its & Hr & G' & Hng & Hit & Hsr & Hrk).
         exists st', fs', t'. eexists. split; [rewrite Hs; cbn [bind]; exact Hr|]. split; [exact G'|]. split; [exact Hng|].
         destruct prev as [pk|]; [|discriminate Hprev]. simpl in Hprev. rewrite Hprev. cbn [andb starts_value_k].
@@ -154,7 +145,7 @@ Proof.
       destruct ms as [fs [t|]]; simpl in R; [|contradiction]. cbn [ms_frames fst] in Hdepth.
       destruct (gstep_suffix ntoks i tok st fs t sp R Hsf) as (st1 & fs1 & t1 & Hpop & Hs & G1 & L1).
       destruct (IH (S i) st1 true false depth (_, Some _) (Some KSuffix) Hop G1 eq_refl
-                   ltac:(cbn [ms_frames fst]; rewrite (pop_group_ids _ _ _ _ _ Hpop); exact Hdepth) ltac:(lia))
+                   ltac:(cbn [ms_frames fst]; rewrite (pop_group_kinds _ _ _ _ _ Hpop); exact Hdepth) ltac:(lia))
         as (st' & fs' & t' & its & Hr & G' & Hng & Hit & Hsr & Hrk).
       exists st', fs', t'. eexists. split; [rewrite Hs; cbn [bind]; exact Hr|]. split; [exact G'|]. split; [exact Hng|].
       assert (Hlead : match prev with
@@ -167,15 +158,15 @@ Proof.
       * constructor; [|exact Hrk]. simpl. exists p. split; [exact (of_rank _ _ _ _ OF)|exact (of_inf _ _ _ _ OF)].
     + (* opening bracket *)
       apply andb_true_iff in Hop. destruct Hop as [Hallow Hop].
-      pose proof (open_is_startgroup tok Ek) as ->.
+      pose proof (open_is_open_tok tok b Ek) as ->.
       pose proof (opexpr_nonempty _ _ _ Hop) as Hne.
       assert (Hi1 : i + 1 < ntoks) by (destruct r; [congruence|simpl in Hi; lia]).
       destruct after.
       * cbn [negb orb] in Hallow. subst sp.
         destruct ms as [fs [t|]]; simpl in R; [|contradiction]. cbn [ms_frames fst] in Hdepth.
-        destruct (gstep_open_list ntoks i st fs t R) as (st1 & fs1 & t1 & Hpop & Hs & G1 & L1).
-        destruct (IH (S i) st1 false false (S depth) (_, None) (Some KOpen) Hop G1 eq_refl
-                     ltac:(cbn [ms_frames fst group_ids length]; rewrite (pop_group_ids _ _ _ _ _ Hpop), Hdepth; reflexivity) ltac:(lia))
+        destruct (gstep_open_list ntoks i st fs t b R) as (st1 & fs1 & t1 & Hpop & Hs & G1 & L1).
+        destruct (IH (S i) st1 false false (b :: depth) (_, None) (Some (KOpen b)) Hop G1 eq_refl
+                     ltac:(cbn [ms_frames fst group_kinds]; rewrite (pop_group_kinds _ _ _ _ _ Hpop), Hdepth; reflexivity) ltac:(lia))
           as (st' & fs' & t' & its & Hr & G' & Hng & Hit & Hsr & Hrk).
         exists st', fs', t'. eexists. split; [rewrite Hs; cbn [bind]; exact Hr|]. split; [exact G'|]. split; [exact Hng|].
         destruct prev as [pk|]; [|discriminate Hprev]. simpl in Hprev. rewrite Hprev. cbn [andb starts_value_k].
@@ -185,13 +176,13 @@ Proof.
         -- constructor; [simpl; exists 220%N; split; [reflexivity|reflexivity]|].
            constructor; [exact I|exact Hrk].
       * destruct ms as [fs [t|]]; simpl in R; [contradiction|]. cbn [ms_frames fst] in Hdepth.
-        destruct (gstep_open ntoks i st fs sp R Hi1) as (st1 & Hs & G1 & L1).
-        destruct (IH (S i) st1 false false (S depth) (_, None) (Some KOpen) Hop G1 eq_refl
-                     ltac:(cbn [ms_frames fst group_ids length]; rewrite Hdepth; reflexivity) ltac:(lia))
+        destruct (gstep_open ntoks i st fs sp b R Hi1) as (st1 & Hs & G1 & L1).
+        destruct (IH (S i) st1 false false (b :: depth) (_, None) (Some (KOpen b)) Hop G1 eq_refl
+                     ltac:(cbn [ms_frames fst group_kinds]; rewrite Hdepth; reflexivity) ltac:(lia))
           as (st' & fs' & t' & its & Hr & G' & Hng & Hit & Hsr & Hrk).
         exists st', fs', t'. eexists. split; [rewrite Hs; cbn [bind]; exact Hr|]. split; [exact G'|]. split; [exact Hng|].
         assert (Hlead : match prev with
-                        | Some p => if sp && ends_value_k p && starts_value_k KOpen then [IBinary D_List None] else []
+                        | Some p => if sp && ends_value_k p && starts_value_k (KOpen b) then [IBinary D_List None] else []
                         | None => [] end = []).
         { destruct prev as [pk|]; [|reflexivity]. simpl in Hprev. rewrite Hprev. rewrite andb_false_r. reflexivity. }
         rewrite Hlead, Hit. split; [reflexivity|]. split.
@@ -199,18 +190,17 @@ Proof.
         -- constructor; [exact I|exact Hrk].
     + (* closing bracket *)
       apply andb_true_iff in Hop. destruct Hop as [-> Hop].
-      pose proof (close_is_endgroup tok Ek) as ->.
-      destruct depth as [|d]; [cbv iota in Hop; discriminate Hop|cbv iota in Hop].
+      pose proof (close_is_close_tok tok b Ek) as ->.
+      destruct depth as [|b' d]; [cbv iota in Hop; discriminate Hop|cbv iota in Hop].
+      apply andb_true_iff in Hop. destruct Hop as [Hb Hop]. apply bkind_eqb_eq in Hb. subst b'.
       destruct ms as [fs [t|]]; simpl in R; [|contradiction]. cbn [ms_frames fst] in Hdepth.
-      destruct (close_group_exists fs t ltac:(intros E; rewrite E in Hdepth; discriminate Hdepth)) as (fs1 & t1 & Hcl).
-      destruct (gstep_close ntoks i st fs t sp fs1 t1 R Hcl) as (st1 & Hs & G1 & L1).
-      pose proof (close_group_ids _ _ _ _ Hcl) as Hids.
-      destruct (IH (S i) st1 true false d (fs1, Some t1) (Some KClose) Hop G1 eq_refl
-                   ltac:(cbn [ms_frames fst]; rewrite Hids in Hdepth; simpl in Hdepth; lia) ltac:(lia))
+      destruct (close_group_kinds b fs t d Hdepth) as (fs1 & t1 & Hcl & Hk1).
+      destruct (gstep_close ntoks i st fs t sp b fs1 t1 R Hcl) as (st1 & Hs & G1 & L1).
+      destruct (IH (S i) st1 true false d (fs1, Some t1) (Some (KClose b)) Hop G1 eq_refl Hk1 ltac:(lia))
         as (st' & fs' & t' & its & Hr & G' & Hng & Hit & Hsr & Hrk).
       exists st', fs', t'. eexists. split; [rewrite Hs; cbn [bind]; exact Hr|]. split; [exact G'|]. split; [exact Hng|].
       assert (Hlead : match prev with
-                      | Some p => if sp && ends_value_k p && starts_value_k KClose then [IBinary D_List None] else []
+                      | Some p => if sp && ends_value_k p && starts_value_k (KClose b) then [IBinary D_List None] else []
                       | None => [] end = []).
       { destruct prev as [p|]; [|reflexivity]. cbn [starts_value_k]. rewrite andb_false_r. reflexivity. }
       rewrite Hlead, Hit. split; [reflexivity|]. split.
@@ -244,7 +234,7 @@ Proof.
   assert (Hr : exists a s d, opexpr_from r a s d = true).
   { cbn [opexpr_from] in H. destruct (ref_kind t); try discriminate H;
       try (apply andb_true_iff in H; destruct H as [_ H]); eauto.
-    destruct depth; [discriminate H|eauto]. }
+    destruct depth; [discriminate H|]. apply andb_true_iff in H. destruct H as [_ H]. eauto. }
   destruct Hr as (a & s & d & Hr). destruct (IH a s d Hr) as [->|(r0 & x & E & Hx)].
   - exists [], t. split; [reflexivity|].
     destruct (is_trim t) eqn:E; [|reflexivity]. exfalso.
@@ -298,7 +288,7 @@ Lemma opexpr_parse_strong toks : operator_expression toks = true ->
 Proof.
   intros H. destruct toks as [|v rest]; [discriminate|]. unfold operator_expression in H.
   apply andb_true_iff in H. destruct H as [_ Hop].
-  destruct (run_opexpr (length (v :: rest)) (v :: rest) 0 init_state false false 0 ([], None) None Hop
+  destruct (run_opexpr (length (v :: rest)) (v :: rest) 0 init_state false false [] ([], None) None Hop
               init_gpend eq_refl eq_refl eq_refl) as (st' & fs' & t' & its & Hrun & G' & Hng & Hitems & Hsr & Hrk).
   destruct (parse_trimmed_gcompl (v :: rest) st' fs' t' ltac:(discriminate) Hrun G' Hng) as (Hp & DT & OT).
   destruct (cstruct_tree _ _ _ (gc_struct _ _ _ _ G')) as (_ & _ & LoT & CovT).
@@ -330,7 +320,7 @@ Qed.
 
 (* ---- binary chains are operator expressions ---- *)
 Lemma chain_tail_opexpr : forall n rest, length rest <= n -> chain_tail rest = true ->
-  opexpr_from rest true false 0 = true.
+  opexpr_from rest true false [] = true.
 Proof.
   induction n as [|n IH]; intros rest Hn H.
   - destruct rest; [reflexivity|simpl in Hn; lia].
